@@ -844,13 +844,14 @@ def qos2_orders(rng, ver, role=0, count=200):
     return out
 
 
-def quiesce(s, ops, role, rounds=80):
+def quiesce(s, ops, role, rounds=80, polls_only=False):
     """epilogue: lift back-pressure, acknowledge everything outstanding in order, resume every pending task,
-    release every receipt, until nothing changes"""
+    release every receipt, until nothing changes.  polls_only: no acknowledgements and no releases, only poll
+    rounds (the epilogue then does not depend on what the simulation believes is outstanding)"""
     if s.wrb:
         ops.append([8, 0])
         s.step(ops[-1])
-    for _ in range(rounds):
+    for _ in range(0 if polls_only else rounds):
         before = len(ops)
         for t in s.pending():
             x = s.tasks[t]
@@ -871,11 +872,60 @@ def quiesce(s, ops, role, rounds=80):
                 s.step(ops[-1])
         if len(ops) == before:
             break
+    # a final idle round: every task that was started and not dropped is polled once more (twice: the first poll
+    # of the round may still change something); stuck_report reads quiescence off these observations
+    for _ in range(2):
+        for t in sorted(s.tasks):
+            if s.tasks[t].st != "dropped":
+                ops.append([2, t])
+                s.step(ops[-1])
     return ops
+
+
+def cancelled_waiter_case(rng, ver, role):
+    """every wake source (back-pressure lifted, set_cap, acknowledgement) against a waiter queue in which some
+    parked senders were cancelled: senders park, a subset is dropped while still parked, the wake source fires"""
+    src = rng.choice(["wrb", "cap", "ack"])
+    kinds = [1, 1, 2, 5] if role == 0 else [1, 2, 3, 5]
+    n = rng.randint(2, 5)
+    ops = []
+    if src == "wrb":
+        cfg = [rng.randint(1, 3), role]
+        ops.append([8, 1])
+        first = 1
+    elif src == "cap":
+        cfg = [0, role]
+        first = 1
+    else:
+        cfg = [1, role]
+        ops.append([1, 1, 1, 0])
+        first = 2
+    ts = list(range(first, first + n))
+    for t in ts:
+        ops.append([1, t, rng.choice(kinds), 0])
+    dropped = [t for t in ts if rng.random() < 0.45]
+    rng.shuffle(dropped)
+    for t in dropped:
+        ops.append([3, t])
+    if src == "wrb":
+        ops.append([8, 0])
+    elif src == "cap":
+        ops.append([9, rng.randint(1, 3)])
+    else:
+        ops.append([4, 1, 1])
+    return [cfg] + ops
 
 
 def quiesced_cases(rng, ver, role=0, count=1000):
     out = []
+    for _ in range(count // 4):
+        fs = cancelled_waiter_case(rng, ver, role)
+        sm = Sim(ver, fs[0][0], role != 0)
+        ops = fs[1:]
+        for op in ops:
+            sm.step(op)
+        quiesce(sm, ops, role, polls_only=True)
+        out.append(line([fs[0]] + ops))
     for _ in range(count):
         c = rand_case(rng, ver, role, maxlen=rng.choice([8, 12, 20, 30]),
                       flavour=rng.choice(["window", "window", "mixed", "ids", "stream", "qos2"]))
@@ -884,7 +934,7 @@ def quiesced_cases(rng, ver, role=0, count=1000):
         ops = fs[1:]
         for op in ops:
             s.step(op)
-        quiesce(s, ops, role)
+        quiesce(s, ops, role, polls_only=rng.random() < 0.4)
         out.append(line([fs[0]] + ops))
     return out
 
@@ -919,12 +969,21 @@ def stuck_report(ver, case, obs):
                 why.add("Q2")
             elif x.st == "done" and x.arg != 2:
                 why.add("Qerr")
-    # only tasks that are really parked in the window queue count, and only if nobody was woken and has not
-    # run yet (the epilogue may have been cut short)
-    parked = [t for t in pend if t in s.tasks and s.tasks[t].st in ("parked", "ready")]
-    if not parked or any(s.ripe(t) for t in s.pending()):
+    # quiescence is read off the implementation's own observations: the case must end with a round of polls
+    # that covers every pending task and during which nothing changed and nothing was written (a task that is
+    # pending with nothing in flight, polled and still pending, is parked on the window)
+    ops = fs[1:]
+    of = obs.split(";")
+    if len(of) != len(ops):
         return None
-    return ("+".join(sorted(why)) or "UNEXPLAINED", parked[0])
+    polled = set()
+    j = len(ops) - 1
+    while j >= 1 and ops[j] and ops[j][0] == 2 and len(ops[j]) == 2 and of[j] == of[j - 1] and of[j].endswith(",255"):
+        polled.add(ops[j][1])
+        j -= 1
+    if not set(pend) <= polled:
+        return None
+    return ("+".join(sorted(why)) or "UNEXPLAINED", pend[0])
 
 
 SEEDS = [
